@@ -500,7 +500,9 @@ func (e *Exec) schedule() (kind, detail, site string) {
 		k := 0
 		if len(en) > 1 {
 			cands := en
-			if e.Cfg.ContextBound > 0 && last != nil && preempt >= e.Cfg.ContextBound {
+			// ContextBound < 0: no preemption at all (the running thread continues while it can; a
+			// choice remains only when it blocks or ends and several others are enabled)
+			if (e.Cfg.ContextBound > 0 && last != nil && preempt >= e.Cfg.ContextBound) || (e.Cfg.ContextBound < 0 && last != nil) {
 				var same []transition
 				for _, tr := range en {
 					if tr.t == last {
